@@ -26,10 +26,10 @@ LINE_BUDGET = 6_000_000
 
 def plan(tier, seed):
     cases = []
-    n = 64 if tier == "quick" else 1400
+    n = 96 if tier == "quick" else 1400
     for i in range(n):
         cases.append({"kind": "random", "seed": seed * 1001003 + i, "mols": 4, "gens": 4})
-    n = 24 if tier == "quick" else 300
+    n = 36 if tier == "quick" else 300
     for i in range(n):
         cases.append({"kind": "enum", "seed": seed * 1001033 + i, "limit": 250 if tier == "quick" else 3000})
     return cases
